@@ -741,7 +741,294 @@ def r105(facts, res):
     res.floor(R, 'spans built from a name/token parser\'s cursor', nsp, 3)
 
 
+# ---------------------------------------------------------------------------------------------------------------------
+# R10.7 a newline the scanner moves over is counted
+NL = (10, 13)
+FINDERS = ('find', 'rfind', 'split_once', 'rsplit_once', 'find_map', 'position')
+
+
+def newline_counter_fields(bodies):
+    """fields of the parser that some loop compares with a snapshot of themselves (`self.f == f0`): the end-of-line
+    detectors of the declaration loops.  Found from the comparisons, not from the field's name."""
+    out = {}
+    for b in bodies:
+        for bb, _i, st in b.stmts():
+            if st['k'] != 'assign' or st['rv'].get('bin') not in ('Eq', 'Ne'):
+                continue
+            fs = []
+            for o in (st['rv']['a'], st['rv']['b']):
+                pl = op_place(o)
+                f = None
+                for _ in range(6):
+                    if pl is None:
+                        break
+                    if pl['l'] == 1 and len(pl['p']) == 2 and pl['p'][0] == 'deref' and isinstance(pl['p'][1], dict) and 'f' in pl['p'][1]:
+                        f = pl['p'][1]['f']
+                        break
+                    if pl['p']:
+                        break
+                    ds = b.defs().get(pl['l'], [])
+                    if len(ds) != 1 or ds[0][1] != 'stmt' or 'use' not in ds[0][2]:
+                        break
+                    pl = op_place(ds[0][2]['use'])
+                fs.append(f)
+            if fs[0] is not None and fs[0] == fs[1]:
+                out.setdefault(fs[0], []).append((b, bb))
+    return out
+
+
+def _is_nl_pattern(b, op):
+    c = op_const(op)
+    if c is not None:
+        return c.get('ty') == 'char' and c.get('int') in NL or (isinstance(c.get('str'), str) and any(ch in c['str'] for ch in '\n\r'))
+    pl = op_place(op)
+    if pl is None or pl['p']:
+        return False
+    for d in b.defs().get(pl['l'], []):
+        if d[1] == 'stmt' and d[2].get('agg') == 'array':
+            if any((op_const(o) or {}).get('int') in NL and (op_const(o) or {}).get('ty') == 'char' for o in d[2]['ops']):
+                return True
+        if d[1] == 'stmt' and ('use' in d[2] or 'ref' in d[2]):
+            src = d[2]['use'] if 'use' in d[2] else {'copy': d[2]['ref']}
+            if _is_nl_pattern(b, src):
+                return True
+    return False
+
+
+def r107(facts, res):
+    """In the functions of the .y parser, whenever the scanner has recognised a line break ('\n' or '\r') and moves its
+    cursor over it, the line counter that the declaration loops use as their end-of-line signal is advanced (or the
+    function fails).  A line break that is stepped over uncounted glues the next line to a `%left`/`%avoid_insert`/...
+    list (seeded change C10-line-comment-newline-uncounted)."""
+    R = 'R10.7'
+    P = 'cfgrammar::yacc::parser::YaccParser'
+    bodies = [b for b in facts.lib_bodies(['cfgrammar']) if (b.impl_of or '').startswith(P) and b.kind != 'closure']
+    if not bodies:
+        return res.lost(R, 'no method of YaccParser found')
+    cf = newline_counter_fields(bodies)
+    if len(cf) != 1:
+        return res.lost(R, 'expected one field that loops compare with a snapshot of itself, found %s' % sorted(cf))
+    F = list(cf)[0]
+    # the counter is an end-of-line signal only between a snapshot and the comparison with it: the loops that compare,
+    # and whatever they call
+    cg = CallGraph(facts, ['cfgrammar'])
+    entries, inloop = set(), {}
+    for cb, cbb in cf[F]:
+        best = None
+        for h, blks in cb.loops().items():
+            if cbb in blks and (best is None or len(blks) < len(best)):
+                best = blks
+        if best is None:
+            continue
+        inloop.setdefault(cb.path, set()).update(best)
+        for x in best:
+            t = cb.term(x)
+            if t['k'] == 'call':
+                c = callee_of(t)
+                if c is not None:
+                    entries.add(c.get('resolved') or c['path'])
+    cone = cg.cone(entries)
+    if not inloop:
+        return res.lost(R, 'no loop compares the line counter with a snapshot of itself')
+    res.count(R + ' loops that end at a line break', len(cf[F]))
+    res.count(R + ' functions called from them', len(cone))
+    nsites = 0
+    for b in bodies:
+        if b.path not in cone and b.path not in inloop:
+            continue
+        defs = b.defs()
+        reach = b.reachable()
+        cnt, errx, okx, fetch = set(), set(), set(), set()
+        for bb in reach:
+            for st in b.blocks[bb]['stmts']:
+                if st['k'] != 'assign':
+                    continue
+                l = st['lhs']
+                if l['l'] == 1 and len(l['p']) == 2 and l['p'][0] == 'deref' and isinstance(l['p'][1], dict) and l['p'][1].get('f') == F:
+                    cnt.add(bb)
+                if l['l'] == 0 and not l['p'] and isinstance(st['rv'].get('agg'), dict):
+                    (errx if st['rv']['agg'].get('vname') == 'Err' else okx).add(bb)
+            t = b.term(bb)
+            if t['k'] == 'call':
+                if t['dest']['l'] == 0 and cname(t) == 'from_residual':
+                    errx.add(bb)
+                if cname(t) == 'next' and 'Chars' in (t['callee'].get('self_ty') or cpath(t) or ''):
+                    fetch.add(bb)
+        sites = []   # (key, site bb, target bb, cursor local or None, payload local or None)
+        for bb in sorted(reach):
+            t = b.term(bb)
+            if t['k'] == 'switch':
+                ol = op_local(t['on'])
+                if t.get('on_ty') == 'char':
+                    tg = sorted({x for v, x in t['targets'] if v in NL})
+                    for x in tg:
+                        sites.append(('match', bb, x, ol, None))
+                elif t.get('on_ty') == 'bool' and ol is not None:
+                    for d in defs.get(ol, []):
+                        if d[1] == 'stmt' and d[2].get('bin') in ('Eq', 'Ne'):
+                            a, c = d[2]['a'], d[2]['b']
+                            for x, y in ((a, c), (c, a)):
+                                k = op_const(y)
+                                if k and k.get('ty') == 'char' and k.get('int') in NL and op_local(x) is not None:
+                                    z = [tb for v, tb in t['targets'] if v == 0]
+                                    tgt = t['otherwise'] if d[2]['bin'] == 'Eq' else (z[0] if z else None)
+                                    if tgt is not None:
+                                        sites.append(('cmp', bb, tgt, op_local(x), None))
+            elif t['k'] == 'call' and cname(t) in FINDERS and len(t['args']) >= 2 and 'str' in (t['callee'].get('self_ty') or ''):
+                if not _is_nl_pattern(b, t['args'][1]) or t['ret'] is None:
+                    continue
+                # the Some branch of the result
+                r, dl = t['ret'], t['dest']['l']
+                sw = b.term(r)
+                some = None
+                if sw['k'] == 'switch':
+                    for st in b.blocks[r]['stmts']:
+                        if st['k'] == 'assign' and 'discr' in st['rv'] and st['rv']['discr']['l'] == dl and st['lhs']['l'] == op_local(sw['on']):
+                            z = [tb for v, tb in sw['targets'] if v == 1]
+                            some = z[0] if z else sw['otherwise']
+                if some is None:
+                    res.note('R10.7: the result of %s(line-break pattern) at %s is not matched directly; site not decided' % (cname(t), loc_of(b, bb)))
+                    continue
+                sites.append(('find', bb, some, None, dl))
+        if b.path not in cone:
+            sites = [x for x in sites if x[1] in inloop[b.path]]
+        for kind, sb, tb, cl, payload in sites:
+            nsites += 1
+            key = '%s/%s@L%d' % (b.name, kind, sorted(x for x in sites if x[0] == kind).index((kind, sb, tb, cl, payload)))
+            cursor = None
+            pre = False
+            if kind != 'find':
+                # the cursor the character was fetched at: c = unwrap(next(&mut chars(index(src, X..))))
+                cursor, fb = _fetch_cursor(b, cl)
+                if cursor is None:
+                    pre = True      # an iterator walks on by itself: the character is behind the cursor
+                else:
+                    back = {sb}
+                    todo = [sb]
+                    while todo:
+                        x = todo.pop()
+                        if x == fb:
+                            continue
+                        for p_ in b.preds(x):
+                            if p_ not in back:
+                                back.add(p_)
+                                todo.append(p_)
+                    region = back & b.reachable(starts=(fb,))
+                    pre = any(_assigns(b, x, cursor) for x in region if x != fb) or False
+            # walk
+            bad = None
+            seen = set()
+            D0 = frozenset([payload]) if payload is not None else frozenset()
+            todo = [(tb, pre, D0)]
+            while todo and bad is None:
+                x, cons, D = todo.pop()
+                if (x, cons, D) in seen or len(seen) > 4000:
+                    continue
+                seen.add((x, cons, D))
+                if x in errx:
+                    continue
+                if kind == 'find':
+                    cons, D = _payload_flow(b, x, cons, D)
+                if x in cnt:
+                    continue
+                if cursor is not None and _assigns(b, x, cursor):
+                    cons = True
+                if x in okx or x in fetch:
+                    if cons:
+                        bad = x
+                    continue
+                for s_ in b.succs(x):
+                    todo.append((s_, cons, D))
+            where = loc_of(b, sb)
+            if bad is not None:
+                res.bad(R, key, where, 'a line break recognised here is stepped over and the scan goes on (line %s) without advancing the line '
+                        'counter (field %d of the parser) that the declaration loops use to find the end of their line' % (b.blocks[bad]['term'].get('line'), F))
+            else:
+                res.ok(R, key, where, 'every path from this recognised line break counts it, fails, or leaves the cursor on it')
+    res.floor(R, 'line-break recognition sites', nsites, 3)
+
+
+def _assigns(b, bb, l):
+    for st in b.blocks[bb]['stmts']:
+        if st['k'] == 'assign' and st['lhs']['l'] == l and not st['lhs']['p']:
+            return True
+    t = b.term(bb)
+    return t['k'] == 'call' and t['dest']['l'] == l and not t['dest']['p']
+
+
+def _payload_flow(b, bb, cons, D):
+    """a position past the found line break is computed: payload + ... + (non-zero constant | len_utf8())"""
+    D = set(D)
+    for st in b.blocks[bb]['stmts']:
+        if st['k'] != 'assign' or st['lhs']['p']:
+            continue
+        rv, dst = st['rv'], st['lhs']['l']
+        if 'use' in rv:
+            pl = op_place(rv['use'])
+            if pl and pl['l'] in D:
+                D.add(dst)
+        elif rv.get('bin') in ('Add', 'AddWithOverflow', 'AddUnchecked'):
+            la, lb = op_local(rv['a']), op_local(rv['b'])
+            for x, y, oy in ((la, lb, rv['b']), (lb, la, rv['a'])):
+                if x in D:
+                    k = op_const(oy)
+                    if k is not None and k.get('int') not in (None, 0):
+                        cons = True
+                    elif y is not None and any(d[1] == 'call' and cname(d[2]) in ('len_utf8', 'len') for d in b.defs().get(y, [])):
+                        cons = True
+                    D.add(dst)
+    return cons, frozenset(D)
+
+
+def _fetch_cursor(b, cl):
+    """(cursor local, fetch block) of c = unwrap(Chars::next(&mut str::chars(&src[X..]))) or (None, None)"""
+    defs = b.defs()
+
+    def one(l, want):
+        ds = defs.get(l, [])
+        if len(ds) != 1:
+            return None
+        return ds[0] if ds[0][1] == want else None
+    l = cl
+    for _ in range(4):      # copies of the character
+        d = one(l, 'stmt')
+        if d is None or 'use' not in d[2]:
+            break
+        pl = op_place(d[2]['use'])
+        if pl is None or pl['p']:
+            break
+        l = pl['l']
+    d = one(l, 'call')
+    if d is None or cname(d[2]) not in ('unwrap', 'expect', 'unwrap_unchecked'):
+        return None, None
+    r, _p, _v = b.op_root(d[2]['args'][0], through=())
+    d = one(r, 'call')
+    if d is None or cname(d[2]) != 'next':
+        return None, None
+    fb = d[0]
+    r, _p, _v = b.op_root(d[2]['args'][0], through=())
+    d = one(r, 'call')
+    if d is None or cname(d[2]) != 'chars':
+        return None, None
+    r, _p, _v = b.op_root(d[2]['args'][0], through=())
+    d = one(r, 'call')
+    if d is None or cname(d[2]) != 'index' or len(d[2]['args']) < 2:
+        return None, None
+    rl = op_local(d[2]['args'][1])
+    d = one(rl, 'stmt') if rl is not None else None
+    for _ in range(3):
+        if d is not None and 'use' in d[2] and op_local(d[2]['use']) is not None:
+            d = one(op_local(d[2]['use']), 'stmt')
+    if d is None or not isinstance(d[2].get('agg'), dict) or d[2]['agg'].get('vname') != 'RangeFrom':
+        return None, None
+    x, _p, _v = b.op_root(d[2]['ops'][0], through=())
+    if _p or x is None:
+        return None, None
+    return x, fb
+
+
 def run(facts, res):
+    r107(facts, res)
     r105(facts, res)
     r106(facts, res)
     r101(facts, res)
